@@ -64,3 +64,10 @@ From KV Require Import EffectsGen PurityProofs.
 Theorem C11_algebra_is_stateless : forallb ss_fresh category_store_sites = true /\ 3 <= List.length category_store_sites.
 Proof. exact category_algebra_stateless. Qed.
 Print Assumptions C11_algebra_is_stateless.
+
+(* obligation regenerated from the source on every run: the code this property runs through keeps exactly the state the
+   model knows (no new attribute, class-level table, module-level binding or caching decorator), see proofs/State*Proofs.v *)
+From KV Require Import StateGen StateBase StateTokensProofs.
+Theorem C11_state_as_modelled : state_tokens = modelled_state_tokens.
+Proof. exact state_tokens_as_modelled. Qed.
+Print Assumptions C11_state_as_modelled.
